@@ -18,7 +18,7 @@ theorem patch_resp (h : Holder) (s o : Nat) (d : List Nat) : (h.patch s o d).obs
   simp [Holder.patch, Holder.obs]
 
 theorem addFixup_resp (h : Holder) (id : Nat) (f : Fixup) : (h.addFixup id f).obs = (h.obs.addFixup id f).obs := by
-  simp [Holder.addFixup, Holder.obs]
+  simp [Holder.addFixup, Holder.alloc, Holder.obs]
 
 /-- a holder function with extra results respects the observation -/
 def Resp {α : Type} (F : Holder → Holder × α) : Prop := ∀ h, (F h).1.obs = (F h.obs).1.obs ∧ (F h).2 = (F h.obs).2
@@ -97,6 +97,10 @@ theorem bindLabel_resp (id toSec toOff : Nat) : Resp (fun h => h.bindLabel id to
       by_cases h2 : le.bound.isSome = true
       · simp only [h2, if_true]; constructor <;> first | rfl | trivial
       · simp only [h2, Bool.false_eq_true, ↓reduceIte]
+        by_cases h3 : (le.fixups.any (fun f => f.reloc.isNone && f.sec == toSec &&
+            (encodeFixup f.a64b ((toOff : Int) - (f.off : Int) + f.rel) f.size).isNone)) = true
+        · simp only [h3, if_true]; constructor <;> first | rfl | trivial
+        simp only [h3, Bool.false_eq_true, ↓reduceIte]
         have key : ({ h with labels := updAt h.labels id fun l => { l with bound := some (toSec, toOff), fixups := [] } } : Holder).obs =
             ({ h.obs with labels := updAt h.obs.labels id fun l => { l with bound := some (toSec, toOff), fixups := [] } } : Holder).obs := by
           simp [Holder.obs]
@@ -114,7 +118,7 @@ theorem asmBind_resp (c : Cur) (id : Nat) : Resp (fun h => asmBind h c id) := by
 
 theorem asmJmp_resp (c : Cur) (id : Nat) : Resp (fun h => asmJmp h c id) := by
   intro h
-  cases h with | mk a s l r u att lg tc aa ar =>
+  cases h with | mk a s l r u att lg tc ar =>
   simp only [asmJmp, Holder.obs]
   cases hl : l[id]? with
   | none => simp
@@ -123,7 +127,7 @@ theorem asmJmp_resp (c : Cur) (id : Nat) : Resp (fun h => asmJmp h c id) := by
     by_cases ha : (a == some Arch.a64) = true
     · simp only [ha, if_true]
       cases hb : le.bound with
-      | none => simp [Holder.write, Holder.addFixup]
+      | none => simp [Holder.write, Holder.addFixup, Holder.alloc]
       | some so =>
         obtain ⟨s0, tgt⟩ := so
         simp only []
@@ -133,7 +137,7 @@ theorem asmJmp_resp (c : Cur) (id : Nat) : Resp (fun h => asmJmp h c id) := by
         · simp only [hs]; simp
     · simp only [ha]
       cases hb : le.bound with
-      | none => simp only [Bool.false_eq_true, if_false]; split <;> simp [Holder.write, Holder.addFixup]
+      | none => simp only [Bool.false_eq_true, if_false]; split <;> simp [Holder.write, Holder.addFixup, Holder.alloc]
       | some so =>
         obtain ⟨s0, tgt⟩ := so
         simp only [Bool.false_eq_true, if_false]
@@ -145,7 +149,7 @@ theorem asmJmp_resp (c : Cur) (id : Nat) : Resp (fun h => asmJmp h c id) := by
 
 theorem asmElabelSz_resp (c : Cur) (id sz : Nat) : Resp (fun h => asmElabelSz h c id sz) := by
   intro h
-  cases h with | mk a s l r u att lg tc aa ar =>
+  cases h with | mk a s l r u att lg tc ar =>
   simp only [asmElabelSz, Holder.obs]
   cases hl : l[id]? with
   | none => simp
@@ -155,8 +159,8 @@ theorem asmElabelSz_resp (c : Cur) (id sz : Nat) : Resp (fun h => asmElabelSz h 
     · simp only [hsz, if_true]; simp
     · simp only [hsz]
       cases hb : le.bound with
-      | none => simp [Holder.write, Holder.addFixup]
-      | some so => simp [Holder.write]
+      | none => simp [Holder.write, Holder.addFixup, Holder.alloc]
+      | some so => simp [Holder.write, Holder.alloc]
 
 theorem asmElabel_resp (c : Cur) (id size : Nat) : Resp (fun h => asmElabel h c id size) := by
   intro h
@@ -165,21 +169,21 @@ theorem asmElabel_resp (c : Cur) (id size : Nat) : Resp (fun h => asmElabel h c 
 
 theorem newLabel_resp (name : List Nat) : Resp (fun h => h.newLabel name) := by
   intro h
-  cases h with | mk a s l r u att lg tc aa ar =>
+  cases h with | mk a s l r u att lg tc ar =>
   simp only [Holder.newLabel, Holder.obs]
   by_cases h1 : name.isEmpty = true
-  · simp [h1]
+  · simp [h1, Holder.alloc]
   · by_cases h2 : name.length > 2048
     · simp [h1, h2]
     · by_cases h3 : (l.any fun x => x.name == name) = true
       · simp only [h1, h2, h3]; simp
-      · simp only [h1, h2, h3]; simp
+      · simp only [h1, h2, h3]; simp [Holder.alloc]
 
 theorem newSection_resp (name : List Nat) : Resp (fun h => h.newSection name) := by
   intro h
-  cases h with | mk a s l r u att lg tc aa ar =>
+  cases h with | mk a s l r u att lg tc ar =>
   simp only [Holder.newSection, Holder.obs]
-  split <;> simp
+  split <;> simp [Holder.alloc]
 
 theorem nodeGen_resp (n : Node) (c : Cur) : Resp (fun h => nodeGen n h c) := by
   cases n
